@@ -106,6 +106,10 @@ func scenariosFor(prop string) []scn {
 		both(flowParams{Sources: 1, Records: 3, Batch: 1, Dests: 2, AckMenu: onlyOK, Procs: []procParam{{ID: "pp", Workers: 1, Kinds: []string{"p", "f", "p"}}}}, 1, 3)
 	case "C01", "C02", "C03", "C04", "C05", "C07":
 		data()
+		if prop == "C01" {
+			// a batching destination that confirms the writes AROUND one it never confirms, in one response: [ack(k-1), ack(k+1)]
+			both(flowParams{Sources: 1, Records: 3, Batch: 1, Dests: 1, AckMenu: []string{"ok", "defer", "skip"}, Stop: ""}, 2, 3)
+		}
 		if prop == "C04" {
 			// (C04 only: its oracle speaks of source acks and positions; the piece bookkeeping of the other properties'
 			// oracles knows one level of splitting)
@@ -153,6 +157,7 @@ func scenariosFor(prop string) []scn {
 		shapes := []string{"ok", "wrongpos", "extra", "none", "reorder", "dup", "err", "nack", "empty", "chunkextra"}
 		both(flowParams{Sources: 1, Records: 2, Batch: 2, Dests: 1, AckMenu: shapes, Stop: "force"}, 2, 3)
 		both(flowParams{Sources: 1, Records: 2, Batch: 1, Dests: 2, AckMenu: shapes, Stop: "force"}, 1, 2)
+		both(flowParams{Sources: 1, Records: 3, Batch: 1, Dests: 1, AckMenu: []string{"ok", "defer", "skip"}, Stop: "force"}, 2, 3)
 		both(flowParams{Sources: 1, Records: 2, Batch: 1, Dests: 1, AckMenu: onlyOK, DLQMenu: shapes, Procs: []procParam{{ID: "pp", Kinds: []string{"e", "e"}}}, Stop: "force"}, 2, 3)
 		for _, kinds := range [][]string{{"short", "p", "p"}, {"p", "nil", "p"}, {"p", "posrewrite", "p"}, {"extra", "p", "p"}, {"p", "p", "short"}, {"2", "short", "p"}, {"emptypos", "p", "p"},
 			{"f", "short", "p"}, {"f", "f", "short"}, {"multi1pos", "p", "p"}, {"p", "multi0", "p"}, {"2", "e", "short"}} {
